@@ -15,7 +15,11 @@ the negation of its own metric flag; (M2) Total energy = leak + dynamic, and the
 only under includes_energy() and re-emitted only under their own flags; (M3) the flag lattice, by
 constant evaluation of the Metrics masks: includes_energy is contained in includes_leak_energy and
 includes_dynamic_energy, ENERGY_DELAY_PRODUCT is in includes_energy and includes_latency, and run_model
-emits each Total column under exactly the matching includes_* test.
+emits each Total column under exactly the matching includes_* test; (M4) the one approximation applied
+between join rounds under every metric combination, OptimalityThresholder, is a one-sided filter over
+the same (EDP-rewritten) columns whose reference points are whole rows of actual previous solutions
+(rule shared with C14-A5): a filter that compares against per-column extremes or per-column sorted
+values drops optima of one metric combination that another combination keeps.
 """
 
 JP = "accelforge/mapper/FFM/_join_pmappings/join_pmappings.py"
@@ -121,8 +125,13 @@ def check(ctx):
         ctx.check(conds == [(test, "true")], R, rm, sts[0], f"{col} is emitted under {conds}, expected exactly `{test}`", f"{col} iff {test}")
     ctx.floor(R, 8)
 
+    from . import c14
+    c14._a5(ctx, "C17-M4")
+
 
 VARIANTS = [
+    {"kind": "F", "name": "per-column-sorted-reference", "rule": "C17-M4", "edits": [(JP, "        compare_to = compare_to.sort_values(by=compare_cols, ascending=False)\n", "        compare_to = pd.DataFrame(-np.sort(-compare_to[compare_cols].to_numpy(dtype=float), axis=0), columns=compare_cols)\n")]},
+    {"kind": "F", "name": "worst-per-column-prefilter", "rule": "C17-M4", "edits": [(JP, "        for c in self.compare_to:\n            nondominated = np.zeros", "        for k0, v0 in self.worst.items():\n            if k0 in edp_mapping.columns:\n                nondominated_by_all &= (edp_mapping[k0] <= v0).to_numpy()\n        for c in self.compare_to:\n            nondominated = np.zeros")]},
     {"kind": "F", "name": "edp-sum", "rule": "C17-M1", "edits": [(JP, 'df["Total<SEP>energy_delay_product"] = energy * latency', 'df["Total<SEP>energy_delay_product"] = energy + latency')]},
     {"kind": "F", "name": "energy-deleted-when-requested", "rule": "C17-M1", "edits": [(JP, "    if not (metrics & Metrics.ENERGY):\n        del df[\"Total<SEP>energy\"]", "    if not (metrics & Metrics.LATENCY):\n        del df[\"Total<SEP>energy\"]")]},
     {"kind": "F", "name": "leak-minus-dynamic", "rule": "C17-M2", "edits": [(MTS, 'df["Total<SEP>energy"] = leak + dynamic', 'df["Total<SEP>energy"] = leak - dynamic')]},
